@@ -142,8 +142,12 @@ var timestamps = []tsVal{
 	{"2024-01-15T09:30:00Z", 1705311000, 0},
 	{"frac.123456789", 1705311000, 123456789},
 	{"epoch0", 0, 0},
+	{"pre-epoch.9995", -1, 999500000},  // before the epoch with a sub-millisecond fraction: floor and truncation differ for seconds and millis
+	{"max", 253402300799, 999999999},   // 9999-12-31T23:59:59.999999999Z, the largest Timestamp
+	{"min", -62135596800, 0},           // 0001-01-01T00:00:00Z, the smallest Timestamp (Go's zero time)
+	{"int64ns.max+1s", 9223372037, 0},  // one second past what an int64 of nanoseconds can hold (2262-04-11)
+	{"int64ns.min-1s", -9223372038, 0}, // one second before the lower nanosecond limit (1677-09-21)
 	{"pre-epoch.5", -1, 500000000},
-	{"max", 253402300799, 999999999},
 }
 
 func setTs(m protoreflect.Message, t tsVal) {
@@ -161,7 +165,7 @@ func messageValues(md protoreflect.MessageDescriptor, o ValueOpts) []Alt {
 			out = append(out, Alt{Label: "ts:" + t.label, Set: func(m protoreflect.Message) { setTs(m, t) }})
 		}
 		if !o.Thorough {
-			out = out[:4]
+			out = out[:6]
 		}
 		return out
 	}
